@@ -319,7 +319,11 @@ inline bool honest_start(Env &E, Honest &h, bool lazy)
 inline void honest_absorb(Env &E, Honest &h)
 {
 	scn::ScriptClient &sc = E.S(h.src).sc;
-	for (; h.absorbed < sc.inbox.size(); h.absorbed++) sc.absorb(sc.inbox[h.absorbed]);
+	for (; h.absorbed < sc.inbox.size(); h.absorbed++) {
+		const scn::Rx &rx = sc.inbox[h.absorbed];
+		char k = rx.is_raw || rx.ans.qname.empty() ? 0 : (char)tolower((unsigned char)rx.ans.qname[0]);
+		if (k && strchr("p0123456789abcdef", k)) sc.absorb(rx);   // only ping/data answers carry the downstream header
+	}
 }
 
 inline Act gen_hostile(Env &E, Tape &t, int nsrc, bool with_time)
